@@ -11,6 +11,9 @@ R16.2 every path that returns a non-zero constant is free of effects (stores to 
       error mapping of the hash submit wrappers (owned by C11).
 R16.3 sibling wrappers (identical parameter lists) evaluate the same set of argument conditions.
 R16.4 every path with an effect returns 0 or the callee's own result.
+R16.7 the XTS entry points accept exactly the documented window: constant propagation over each isal_aes_xts_* wrapper
+      (lib/irskel.py) with len_bytes = MIN-1, MIN, MIN+1, MAX-1, MAX, MAX+1 (ISAL_AES_XTS_MIN_LEN / _MAX_LEN read from
+      include/aes_xts.h) reaches the implementation exactly for the lengths inside the window.
 R16.5 each legacy wrapper forwards its parameters to the same internal callee in the same roles as
       its isal_ twin and returns the callee's result.
 R16.6 a legacy selector without a twin (aes_cbc_precomp) invokes exactly one internal interface per path, and
@@ -313,6 +316,12 @@ def run(chk):
                 unpaired.append(L.name)
                 continue
             n_legacy += 1
+            own = "isal_" + L.name
+            if own in guardsets and own not in twins:
+                owncal = sorted(internal_of.get(own, []))
+                chk.obligation("R16.5", False, key=(L.name, "own-twin"))
+                chk.finding(Finding("R16.5", src, L.name, "legacy-forwarding", "the legacy wrapper forwards to %s, the routine behind %s, while its own twin %s forwards to %s" % (C.callee, twins[0], own, ", ".join(owncal) or "another routine"), loc=C.loc(), detail={"twin": own}))
+                continue
             T = guardsets[twins[0]][1]
             TC = [I for I in T.calls(C.callee)][0]
             problems = []
@@ -354,6 +363,46 @@ def run(chk):
             if problems:
                 chk.finding(Finding("R16.5", src, L.name, "legacy-forwarding", "; ".join(problems), loc=C.loc(), detail={"twin": T.name}))
     chk.floor("legacy wrappers paired with an isal_ twin", n_legacy, 40)
+    # ---- R16.7 the documented length window of the XTS entry points (IR skeleton)
+    import irskel
+    import os as _os
+    win = {}
+    try:
+        with open(_os.path.join(build.REPO, "include", "aes_xts.h")) as fh:
+            for ln in fh:
+                mm = re.match(r"^\s*#\s*define\s+(ISAL_AES_XTS_(MIN|MAX)_LEN)\s+\(?\s*(\d+)\s*(<<\s*(\d+))?\s*\)?", ln)
+                if mm:
+                    win[mm.group(2)] = int(mm.group(3)) << int(mm.group(5) or 0)
+    except OSError:
+        pass
+    n167 = 0
+    Mx = mods.get("aes/aes_xts.c")
+    if Mx is not None and {"MIN", "MAX"} <= set(win):
+        for Fx in sorted(Mx.defined(), key=lambda f: f.name):
+            if not Fx.name.startswith("isal_aes_xts_"):
+                continue
+            ln_n = Fx.arg_index("len_bytes")
+            if ln_n is None:
+                continue
+            n167 += 1
+            bad7 = None
+            for L_, want in ((win["MIN"] - 1, False), (win["MIN"], True), (win["MIN"] + 1, True), (win["MAX"] - 1, True), (win["MAX"], True), (win["MAX"] + 1, False)):
+                args_ = [("p", a_.get("name") or "p%d" % k_, 0) if "*" in (a_.get("ty") or "") else None for k_, a_ in enumerate(Fx.args)]
+                args_[ln_n] = L_
+                try:
+                    rr_ = irskel.run(Fx, args_, None, enter=lambda cal: (Mx.functions.get(cal) if (Mx.functions.get(cal) is not None and not Mx.functions[cal].decl and not cal.startswith(("_XTS", "isal_self"))) else None), unknown_dir=0)
+                except irskel.Unknown as e:
+                    chk.broke("%s: IR skeleton not followed for len = %d: %s" % (Fx.name, L_, e))
+                    bad7 = "broken"
+                    break
+                did = any(ev[0] == "call" and re.match(r"^_?XTS_AES_", ev[1] or "") for ev in rr_.events)
+                if did != want:
+                    bad7 = (L_, want)
+                    break
+            chk.obligation("R16.7", bad7 is None, key=Fx.name, sample={"function": Fx.name, "min": win["MIN"], "max": win["MAX"]})
+            if bad7 and bad7 != "broken":
+                chk.finding(Finding("R16.7", "aes/aes_xts.c", Fx.name, "length-window:%d" % bad7[0], "len_bytes = %d is %s, but include/aes_xts.h documents the window [%d, %d] - %s" % (bad7[0], "refused" if bad7[1] else "accepted", win["MIN"], win["MAX"], "a documented length is turned away" if bad7[1] else "an undocumented length reaches the implementation"), loc="%s:%s" % (Fx.file, Fx.line)))
+        chk.floor("XTS entry points checked against the documented length window", n167, 8)
     chk.extra["legacy_unpaired_listed_not_judged"] = unpaired
     return ("Path enumeration over %d isal_ wrappers (default build): NULL-guard-before-use per pointer parameter, effect-free error "
             "paths, sibling guard-set agreement in %d groups, %d legacy/isal_ forwarding pairs." % (len(wrappers), ngroups, n_legacy))
